@@ -53,9 +53,16 @@ Measurements(srcs) ==
   UNION {IF srcs[i].k = "m" THEN {srcs[i]} ELSE Measurements(srcs[i].srcs) : i \in 1..Len(srcs)}
 
 \* what a SELECT with these sources and this target must list
+\* ("covers everything the statement touches ... with any nesting of subqueries": the INTO target of a SELECT nested
+\* at any depth is written when the outer statement runs, so the outer list names it, too)
+RECURSIVE NestedTargets(_)
+NestedTargets(srcs) ==
+  UNION {IF srcs[i].k # "sub" THEN {}
+         ELSE (IF srcs[i].tgt.f = "none" THEN {} ELSE {srcs[i].tgt}) \cup NestedTargets(srcs[i].srcs) : i \in 1..Len(srcs)}
 Required(srcs, tgt) ==
   {[Name |-> m.db, Privilege |-> "READ"] : m \in Measurements(srcs)}
   \cup (IF tgt.f = "none" THEN {} ELSE {[Name |-> tgt.db, Privilege |-> "WRITE"]})
+  \cup {[Name |-> t.db, Privilege |-> "WRITE"] : t \in NestedTargets(srcs)}
 
 \* a listed privilege p grants the required (database, access) pair q
 Grants(p, q) == p.Name = q.Name /\ p.Privilege \in {q.Privilege, "ALL PRIVILEGES"}
